@@ -241,7 +241,7 @@ def _ranges(nums):
 
 # ----------------------------------------------------------------------------- main
 def write_replay(pid, case, violations, tier, seed):
-    d = os.path.join(HERE, "replays", pid)
+    d = os.path.join(os.environ.get("VERIF_OUT") or HERE, "replays", pid)
     os.makedirs(d, exist_ok=True)
     path = os.path.join(d, case_key(case) + ".json")
     with open(path, "w") as f:
@@ -263,7 +263,9 @@ def classify(mod, findings, case, viol):
 
 
 def write_evidence(pid, ev):
-    d = os.path.join(HERE, "evidence")
+    # VERIF_OUT=<dir>: evidence and replays of experiments (mutation runs, seeded changes in scratch copies) go there
+    # instead of into the committed evidence/ directory; the registered commands never set it
+    d = os.path.join(os.environ.get("VERIF_OUT") or HERE, "evidence")
     os.makedirs(d, exist_ok=True)
     with open(os.path.join(d, pid + ".json"), "w") as f:
         f.write(dumps(ev, indent=1) + "\n")
